@@ -1,8 +1,8 @@
 (* Canonical wire encoding of caveats, caveat sets, nonces and tokens; the frame-level decoder of
    caveat sets (type + body span, as CaveatSet.DecodeMsgpack + Skip see them); the JSON round trip
    at the value level; the decoder's wire-driven pre-allocation.  No proofs in this file. *)
-From Coq Require Import List Bool NArith ZArith String Ascii.
-From Mac Require Import Model.Caveat Model.Msgpack.
+From Coq Require Import List Bool NArith ZArith String Ascii Decimal DecimalString.
+From Mac Require Import Model.Caveat Model.Msgpack Generated.Facts.
 Import ListNotations.
 Local Open Scope N_scope.
 
@@ -190,3 +190,39 @@ Fixpoint json_rt (c : cav) : option cav :=
   | CCommands None => None                      (* likewise *)
   | other => Some other
   end.
+
+(* ---- the "type" field of a JSON caveat (caveatTypeToString / caveatTypeFromString).
+   [reg] lists (type number, name) of the registered caveat types (Generated/Facts.v plus whatever the application
+   registered).  A registered built-in type prints as its name, every other type (user-defined, unknown) in decimal;
+   reading looks the name up and falls back to strconv.ParseUint(s, 10, 64), then to CavUnregistered.
+   JSON aliases (RegisterCaveatJSONAlias) are further names on the reading side only and are not modelled. *)
+Definition dec_string (t : N) : string := NilZero.string_of_uint (N.to_uint t).
+Definition parse_uint64 (s : string) : option N :=
+  match NilZero.uint_of_string s with
+  | Some d => let n := N.of_uint d in if n <? 2 ^ 64 then Some n else None
+  | None => None
+  end.
+Definition type_to_json (reg : list (N * string)) (min_user : N) (t : N) : string :=
+  match find (fun e => fst e =? t) reg with
+  | Some (_, s) => if t <? min_user then s else dec_string t
+  | None => dec_string t
+  end.
+Definition type_from_json (reg : list (N * string)) (unregistered : N) (s : string) : N :=
+  match find (fun e => String.eqb (snd e) s) reg with
+  | Some (t, _) => t
+  | None => match parse_uint64 s with Some t => t | None => unregistered end
+  end.
+(* what a registry must satisfy for the round trip: looking an entry's name up gives its type back, and no name is a
+   decimal numeral (it would shadow a user-defined type's number) *)
+Definition is_decimal (s : string) : bool := match NilZero.uint_of_string s with Some _ => true | None => false end.
+Definition reg_ok (reg : list (N * string)) : bool :=
+  forallb (fun e => match find (fun e' => String.eqb (snd e') (snd e)) reg with
+                    | Some (t', _) => t' =? fst e | None => false end) reg &&
+  forallb (fun e => negb (is_decimal (snd e))) reg.
+
+(* the registry of this tree (Generated/Facts.v, regenerated from /repo on every run) together with the three user-defined
+   types the harness registers at the bottom, the middle and the top of the user range *)
+Definition facts_reg : list (N * string) := map (fun e => (fst (fst (fst e)), snd (fst (fst e)))) registered.
+Definition harness_reg : list (N * string) :=
+  [(f_cav_min_user_defined + 7, "HarnessLow"%string); (2 ^ 63 + 7, "HarnessMid"%string); (f_cav_max_user_defined, "HarnessMax"%string)].
+Definition all_reg := facts_reg ++ harness_reg.
